@@ -94,7 +94,10 @@ muts = {
  'T05_timestamp_clock_truncated': (V, '\ttimeOfVerification := time.Now()\n\tif performTimestampVerification &&', '\ttimeOfVerification := time.Now().Truncate(time.Second)\n\tif performTimestampVerification &&'),
  'T06_timestamp_clock_rounded_up': (V, '\ttimeOfVerification := time.Now()\n\tif performTimestampVerification &&', '\ttimeOfVerification := time.Now().Truncate(time.Second).Add(time.Second)\n\tif performTimestampVerification &&'),
  'T07_signing_revocation_always_gets_signing_time': (V, '\tif outcome.EnvelopeContent.SignerInfo.SignedAttributes.SigningScheme == signature.SigningSchemeX509SigningAuthority {\n\t\tauthenticSigningTime, _ =', '\tif true {\n\t\tauthenticSigningTime =  outcome.EnvelopeContent.SignerInfo.SignedAttributes.SigningTime\n\t\t_, _ ='),
- 'B01_expiry_boundary_only(unobservable)': (V, '!expiry.IsZero() && !time.Now().Before(expiry)', '!expiry.IsZero() && time.Now().After(expiry)'),
+ # round 4: the TSA revocation check must not depend on the level shape; EKUs nest along the TSA path
+ 'U01_tsa_revocation_skipped_when_timestamp_only_logged': (V, '\tlogger.Debug("Checking timestamping certificate chain revocation...")\n', '\tif outcome.VerificationLevel.Enforcement[trustpolicy.TypeAuthenticTimestamp] == trustpolicy.ActionLog && outcome.VerificationLevel.Enforcement[trustpolicy.TypeRevocation] != trustpolicy.ActionEnforce {\n\t\treturn nil\n\t}\n\tlogger.Debug("Checking timestamping certificate chain revocation...")\n'),
+ 'U02_tsa_path_for_any_eku': (V, '\t\tCurrentTime: timestamp.Value,\n\t\tRoots:       rootCertPool,\n', '\t\tCurrentTime: timestamp.Value,\n\t\tRoots:       rootCertPool,\n\t\tKeyUsages:   []x509.ExtKeyUsage{x509.ExtKeyUsageAny},\n'),
+ 'B01_expiry_boundary_only(harness-unobservable, tie catches)': (V, '!expiry.IsZero() && !time.Now().Before(expiry)', '!expiry.IsZero() && time.Now().After(expiry)'),
  # behaviour-preserving
  'R01_message_changed': (V, 'return errors.New("no timestamp countersignature was found in the signature envelope")', 'return errors.New("the envelope carries no RFC 3161 countersignature")'),
  'R02_swap_validnow_checks': (V, '''			if timeOfVerification.Before(cert.NotBefore) {
